@@ -8,6 +8,14 @@
 //! the expected outcome of every generated program: accepted with an exact list of emitted tags,
 //! rejected with a clash diagnostic, or rejected with an unresolved-identifier diagnostic.
 //!
+//! Family E (imported enums): the same three files, but `aa` and `dir/bb` declare ∅, {En} or {En, mk}
+//! (`type En = Ra | Rb` with a member function `who` whose values identify the file and the variant;
+//! `fn mk() -> En`); `main` imports each with one of nine forms {none, glob, `.mk`, `.En`, `.(mk, En)`,
+//! `except mk`, `except En`, `except (mk, En)`, `as q`} and optionally declares its own `type En`.
+//! `En` is used in main as a type annotation, in qualified variant expressions (`En.Ra`) and in
+//! enum-qualified variant PATTERNS (`match v { En.Ra -> .. En.Rb -> .. }`, resolved through the
+//! namespace table rather than the declaration table). Same model resolver, same three outcomes.
+//!
 //! Family B (nested scopes): chains of ≤ d nested scopes (block, if, while, for, match arm, lambda;
 //! for / arm / lambda either binding `x` or another name), each level optionally declaring
 //! `let x` before or after the inner scope; `x` is observed innermost and again after every scope
@@ -352,10 +360,14 @@ fn subsets(tier: Tier) -> Vec<u8> {
 }
 
 fn run_prog_a(out: &mut UnitOut, l: &Layout, p: &ProgA) {
-    let src = Src::with_vh(&p.main).add("aa.abra", &file_text(l.sa, 11)).add("dir/bb.abra", &file_text(l.sb, 21));
+    run_prog_files(out, &file_text(l.sa, 11), &file_text(l.sb, 21), p)
+}
+
+fn run_prog_files(out: &mut UnitOut, aa_text: &str, bb_text: &str, p: &ProgA) {
+    let src = Src::with_vh(&p.main).add("aa.abra", aa_text).add("dir/bb.abra", bb_text);
     out.evaluations += 1;
     let key = format!("input:{}", hkey(&p.name));
-    let files = json!({"main.abra": p.main, "aa.abra": file_text(l.sa, 11), "dir/bb.abra": file_text(l.sb, 21), "vh.abra": "(harness host functions)"});
+    let files = json!({"main.abra": p.main, "aa.abra": aa_text, "dir/bb.abra": bb_text, "vh.abra": "(harness host functions)"});
     let mut viol = |out: &mut UnitOut, observed: String, extra: Vec<String>| {
         out.class("violation");
         let mut keys = vec![key.clone()];
@@ -404,6 +416,239 @@ fn run_prog_a(out: &mut UnitOut, l: &Layout, p: &ProgA) {
             }
         }
     }
+}
+
+
+// ------------------------------------------------------------------ family E: imported enums
+
+const MK: u8 = 1;
+const EN: u8 = 2;
+/// what an imported file may declare: nothing, the enum, the enum and a function returning it
+const FILE_SETS_E: [u8; 3] = [0, EN, EN | MK];
+
+#[derive(Clone, Copy, Debug, PartialEq, Eq)]
+pub enum FormE {
+    None,
+    Glob,
+    OnlyMk,
+    OnlyEn,
+    OnlyBoth,
+    ExceptMk,
+    ExceptEn,
+    ExceptBoth,
+    As,
+}
+const FORMS_E: [FormE; 9] =
+    [FormE::None, FormE::Glob, FormE::OnlyMk, FormE::OnlyEn, FormE::OnlyBoth, FormE::ExceptMk, FormE::ExceptEn, FormE::ExceptBoth, FormE::As];
+
+#[derive(Clone, Copy, Debug)]
+pub struct LayoutE {
+    /// names the file declares (bits MK, EN)
+    pub sa: u8,
+    pub sb: u8,
+    pub fa: FormE,
+    pub fb: FormE,
+    /// main declares its own `type En = Rc | Ra | Rb`
+    pub own: bool,
+}
+
+/// which declaration a name denotes
+#[derive(Clone, Copy, Debug, PartialEq, Eq)]
+enum Who {
+    Own,
+    Aa,
+    Bb,
+}
+impl Who {
+    /// `who()` of that declaration's enum gives base*10 + 1 for Ra, base*10 + 2 for Rb
+    fn base(self) -> i64 {
+        match self {
+            Who::Own => 3,
+            Who::Aa => 13,
+            Who::Bb => 23,
+        }
+    }
+}
+
+/// --- the model resolver (same rules as family A) ----------------------------------------------
+fn bare_visible_e(set: u8, form: FormE) -> u8 {
+    match form {
+        FormE::None | FormE::As => 0,
+        FormE::Glob => set,
+        FormE::OnlyMk => set & MK,
+        FormE::OnlyEn => set & EN,
+        FormE::OnlyBoth => set & (MK | EN),
+        FormE::ExceptMk => set & !MK,
+        FormE::ExceptEn => set & !EN,
+        FormE::ExceptBoth => set & !(MK | EN),
+    }
+}
+fn imports_missing_e(set: u8, form: FormE) -> bool {
+    match form {
+        FormE::OnlyMk => set & MK == 0,
+        FormE::OnlyEn => set & EN == 0,
+        FormE::OnlyBoth => set & (MK | EN) != (MK | EN),
+        _ => false,
+    }
+}
+fn file_level_e(l: &LayoutE, bit: u8) -> Vec<Who> {
+    let mut v = vec![];
+    if bit == EN && l.own {
+        v.push(Who::Own);
+    }
+    if bare_visible_e(l.sa, l.fa) & bit != 0 {
+        v.push(Who::Aa);
+    }
+    if bare_visible_e(l.sb, l.fb) & bit != 0 {
+        v.push(Who::Bb);
+    }
+    v
+}
+/// --------------------------------------------------------------------------------------------
+
+fn enum_text(variants: &str, base: i64, third: bool) -> String {
+    format!(
+        "type En = {variants}\nextend En {{\nfn who(self) -> int {{\nmatch self {{\n.Ra -> {base}1\n.Rb -> {base}2\n{}}}\n}}\n}}\n",
+        if third { format!(".Rc -> {base}3\n") } else { String::new() }
+    )
+}
+
+/// the two files declare the variants in opposite order, so a variant resolved in the wrong enum has another index
+fn file_text_e(set: u8, who: Who) -> String {
+    let mut s = String::new();
+    if set & EN != 0 {
+        s.push_str(&enum_text(if who == Who::Aa { "Ra | Rb" } else { "Rb | Ra" }, who.base(), false));
+    }
+    if set & MK != 0 {
+        s.push_str("fn mk() -> En = En.Rb\n");
+    }
+    s
+}
+
+fn use_line_e(path: &str, alias: &str, f: FormE) -> String {
+    match f {
+        FormE::None => String::new(),
+        FormE::Glob => format!("use {path}\n"),
+        FormE::OnlyMk => format!("use {path}.mk\n"),
+        FormE::OnlyEn => format!("use {path}.En\n"),
+        FormE::OnlyBoth => format!("use {path}.(mk, En)\n"),
+        FormE::ExceptMk => format!("use {path} except mk\n"),
+        FormE::ExceptEn => format!("use {path} except En\n"),
+        FormE::ExceptBoth => format!("use {path} except (mk, En)\n"),
+        FormE::As => format!("use {path} as {alias}\n"),
+    }
+}
+
+fn header_e(l: &LayoutE) -> String {
+    let mut s = String::from("use vh\n");
+    s.push_str(&use_line_e("aa", "qa", l.fa));
+    s.push_str(&use_line_e("dir/bb", "qb", l.fb));
+    if l.own {
+        s.push_str(&enum_text("Rc | Ra | Rb", Who::Own.base(), true));
+    }
+    s
+}
+
+fn layout_name_e(l: &LayoutE) -> String {
+    let set = |s: u8| -> &'static str {
+        match s {
+            0 => "{}",
+            EN => "{En}",
+            _ => "{En,mk}",
+        }
+    };
+    format!("enum family: aa={} {:?}; dir/bb={} {:?}; main own={}", set(l.sa), l.fa, set(l.sb), l.fb, if l.own { "type En" } else { "none" })
+}
+
+pub fn programs_e(l: &LayoutE) -> Vec<ProgA> {
+    let ln = layout_name_e(l);
+    let hd = header_e(l);
+    let mut v = vec![];
+    let missing = imports_missing_e(l.sa, l.fa) || imports_missing_e(l.sb, l.fb);
+    let (ens, mks) = (file_level_e(l, EN), file_level_e(l, MK));
+    if ens.len() > 1 || mks.len() > 1 {
+        v.push(ProgA { name: format!("{ln} | no uses"), main: format!("{hd}vh_emit_int(0)\n"), exp: ExpA::RejectedClash });
+        return v;
+    }
+    let (en, mk) = (ens.first().copied(), mks.first().copied());
+    // positive program: every use the model resolves
+    let mut body = String::new();
+    let mut exp: Vec<i64> = vec![];
+    if let Some(w) = en {
+        let own = w == Who::Own;
+        // the enum name as a type annotation, and as the qualifier of variant patterns inside a function
+        body.push_str(&format!("fn cls(e: En) -> int {{\nmatch e {{\nEn.Ra -> 1\nEn.Rb -> 2\n{}}}\n}}\nfn wh(e: En) -> int = e.who()\n", if own { "En.Rc -> 3\n" } else { "" }));
+        let mut k = 0;
+        uses_at_positions("En1", "wh(En.Rb)", true, &mut body, &mut k);
+        exp.extend(std::iter::repeat_n(w.base() * 10 + 2, k));
+        let mut k = 0;
+        uses_at_positions("En2", "cls(En.Ra)", true, &mut body, &mut k);
+        exp.extend(std::iter::repeat_n(1, k));
+        // qualified variant expression as scrutinee, qualified variant patterns at top level
+        body.push_str(&format!("match En.Rb {{\nEn.Ra -> vh_emit_int(1)\nEn.Rb -> vh_emit_int(2)\n{}}}\n", if own { "En.Rc -> vh_emit_int(3)\n" } else { "" }));
+        exp.push(2);
+        body.push_str("let e9 = En.Ra\nmatch e9 {\n.Ra -> vh_emit_int(e9.who())\n_ -> vh_emit_int(0)\n}\n");
+        exp.push(w.base() * 10 + 1);
+    }
+    if let Some(m) = mk {
+        let mut k = 0;
+        uses_at_positions("mk1", "mk().who()", true, &mut body, &mut k);
+        exp.extend(std::iter::repeat_n(m.base() * 10 + 2, k));
+        body.push_str("match mk() {\n.Ra -> vh_emit_int(1)\n.Rb -> vh_emit_int(2)\n}\n");
+        exp.push(2);
+        if en == Some(m) {
+            // the visible enum name is the type of mk's result
+            body.push_str("vh_emit_int(cls(mk()))\nmatch mk() {\nEn.Ra -> vh_emit_int(1)\nEn.Rb -> vh_emit_int(2)\n}\n");
+            exp.extend([2, 2]);
+        }
+    }
+    for (alias, set, form, who) in [("qa", l.sa, l.fa, Who::Aa), ("qb", l.sb, l.fb, Who::Bb)] {
+        if form != FormE::As {
+            continue;
+        }
+        if set & EN != 0 {
+            body.push_str(&format!("let {alias}e = {alias}.En.Ra\nvh_emit_int({alias}e.who())\n"));
+            exp.push(who.base() * 10 + 1);
+        }
+        if set & MK != 0 {
+            let mut k = 0;
+            uses_at_positions(&format!("{alias}mk"), &format!("{alias}.mk().who()"), true, &mut body, &mut k);
+            exp.extend(std::iter::repeat_n(who.base() * 10 + 2, k));
+        }
+    }
+    body.push_str("vh_emit_int(0)\n");
+    exp.push(0);
+    v.push(ProgA {
+        name: format!("{ln} | all resolvable uses"),
+        main: format!("{hd}{body}"),
+        exp: if missing { ExpA::EmitsIfAccepted(exp) } else { ExpA::Emits(exp) },
+    });
+    // negative programs: one per way of naming an enum that no visible declaration provides
+    if en.is_none() {
+        let mut neg = |what: &str, text: String| {
+            v.push(ProgA { name: format!("{ln} | {what} (En not visible)"), main: format!("{hd}{text}"), exp: ExpA::RejectedUnresolved });
+        };
+        neg("qualified variant expression En.Ra", "let e1 = En.Ra\nvh_emit_int(0)\n".into());
+        neg("qualified variant pattern En.Ra on an inferred parameter", "fn cls(e) -> int {\nmatch e {\nEn.Ra -> 1\n_ -> 2\n}\n}\nvh_emit_int(0)\n".into());
+        neg("type annotation En", "fn wh(e: En) -> int = 0\nvh_emit_int(0)\n".into());
+        if mk.is_some() {
+            neg("qualified variant patterns on the result of the imported mk()", "match mk() {\nEn.Ra -> vh_emit_int(1)\nEn.Rb -> vh_emit_int(2)\n}\n".into());
+        }
+        for (alias, set, form) in [("qa", l.sa, l.fa), ("qb", l.sb, l.fb)] {
+            if form == FormE::As && set & MK != 0 {
+                neg(&format!("qualified variant patterns on the result of {alias}.mk()"), format!("match {alias}.mk() {{\nEn.Ra -> vh_emit_int(1)\nEn.Rb -> vh_emit_int(2)\n}}\n"));
+            }
+        }
+    }
+    if mk.is_none() {
+        v.push(ProgA { name: format!("{ln} | use bare mk (not visible)"), main: format!("{hd}let m1 = mk()\nvh_emit_int(0)\n"), exp: ExpA::RejectedUnresolved });
+    }
+    v
+}
+
+fn file_sets_e(tier: Tier) -> (Vec<u8>, Vec<u8>) {
+    // quick: aa ∈ {{En}, {En,mk}} × dir/bb ∈ {∅, {En,mk}}; thorough: all nine combinations
+    tier.pick((vec![EN, EN | MK], vec![0, EN | MK]), (FILE_SETS_E.to_vec(), FILE_SETS_E.to_vec()))
 }
 
 // ------------------------------------------------------------------ family B: nested scopes
@@ -575,6 +820,8 @@ struct Plan {
     a_units: Vec<(u8, Own, u8)>,
     b_fn_units: usize,
     b_top_units: usize,
+    /// family E units come last, so the unit numbers of the older families are unchanged
+    e_units: Vec<(u8, bool, u8)>,
 }
 fn plan(tier: Tier) -> Plan {
     let mut a = vec![];
@@ -585,10 +832,20 @@ fn plan(tier: Tier) -> Plan {
             }
         }
     }
+    let mut e = vec![];
+    let (ea, eb) = file_sets_e(tier);
+    for sa in ea {
+        for own in [false, true] {
+            for &sb in &eb {
+                e.push((sa, own, sb));
+            }
+        }
+    }
     Plan {
         a_units: a,
         b_fn_units: (nests_closed_form(depth_fn(tier)) as usize).div_ceil(B_PER_UNIT),
         b_top_units: 4,
+        e_units: e,
     }
 }
 
@@ -601,7 +858,7 @@ impl Prop for C21 {
     }
     fn n_units(&self, tier: Tier) -> usize {
         let p = plan(tier);
-        p.a_units.len() + 1 + p.b_fn_units + p.b_top_units
+        p.a_units.len() + 1 + p.b_fn_units + p.b_top_units + p.e_units.len()
     }
     fn run_unit(&self, tier: Tier, unit: usize, out: &mut UnitOut) {
         let p = plan(tier);
@@ -653,6 +910,24 @@ impl Prop for C21 {
                 };
                 judge_b(out, &c.name, &c.standalone(), n, &exps[k], res, pk);
             });
+        } else if unit >= na + 1 + p.b_fn_units + p.b_top_units {
+            let (sa, own, sb) = p.e_units[unit - (na + 1 + p.b_fn_units + p.b_top_units)];
+            let (aa_text, bb_text) = (file_text_e(sa, Who::Aa), file_text_e(sb, Who::Bb));
+            let mut idx = 0u64;
+            for fa in FORMS_E {
+                for fb in FORMS_E {
+                    let l = LayoutE { sa, sb, fa, fb, own };
+                    out.count("enum_layouts", 1);
+                    for pr in programs_e(&l) {
+                        if out.begin_case(idx) {
+                            out.describe_case(&format!("{}\n{}", pr.name, pr.main));
+                            out.count("enum_programs", 1);
+                            run_prog_files(out, &aa_text, &bb_text, &pr);
+                        }
+                        idx += 1;
+                    }
+                }
+            }
         } else {
             // the same at top level (globals), each program standalone
             let u = unit - na - 1 - p.b_fn_units;
@@ -688,9 +963,15 @@ impl Prop for C21 {
              with a local binding of the same name in a nested block / lambda parameter / arm pattern and the outer one again afterwards), one program per alias for the static member `q.Ty.tag()`, \
              one program per name the model finds invisible (expected: unresolved-identifier diagnostic), or a single program when the model finds a clash (expected: clash diagnostic, raised even when the name is not used). \
              Plus 14 fully-qualified-name programs (unspecified: no fault only) and 7 special layouts (alias clashes, double import, missing file). \
+             E (imported enums): all layouts aa ∈ D × dir/bb ∈ D' × 9 import forms {{none, glob, `.mk`, `.En`, `.(mk, En)`, `except mk`, `except En`, `except (mk, En)`, `as q`}}² × main's own `type En` {{absent, present}} with (D, D') = {}, \
+             where a file's En is `type En = Ra | Rb` (variants in opposite order in the two files, three variants in main) with `who()` returning a value that identifies the declaring file and the variant, and mk is `fn mk() -> En`; \
+             per layout: one program with every use the model resolves (En as type annotation, `En.Rb` / `En.Ra` as expressions at five positions, enum-qualified variant PATTERNS `En.Ra -> .. En.Rb -> ..` inside a function and at top level, \
+             mk() matched by unqualified and, when En is mk's own enum, by qualified patterns, `q.En.Ra` and `q.mk()` through an alias), one program per way of naming an invisible En \
+             (qualified expression, qualified pattern on an inferred parameter, type annotation, qualified patterns on the result of a visible mk() / q.mk(); expected: unresolved-identifier diagnostic), one for an invisible mk, or a single program when the model finds a clash. \
              B (scopes): all chains of ≤ {} nested scopes from {:?} inside a function body (batched) and ≤ {} at top level (standalone), levels of non-x-binding scopes declare `let x` {{never, before, after}} the inner scope; \
              x is read innermost and after every scope closes; expected values from an environment-stack model. Every case is non-trivial (each checks at least one resolution); distinct by case name.",
             tier.pick("{f, Ty}", "{f, g, Ty}"),
+            tier.pick("{{En}, {En,mk}} × {∅, {En,mk}}", "{∅, {En}, {En,mk}}²"),
             depth_fn(tier),
             SCS,
             DEPTH_TOP
@@ -703,6 +984,8 @@ impl Prop for C21 {
             "redeclaring x in the same scope as another binding of x (let after let, let in the body of a for/arm/lambda that binds x) is left out of the universe: the manual does not say whether it is a new scope".into(),
             "diagnostics are compared by kind (clash = 'declared more than once', unresolved = 'Could not resolve identifier'), never by full text".into(),
             "fully qualified names without an alias (`aa.f()`) are named by namespaces.md but not said to be writable: no-fault only".into(),
+            "enum family: a member call written directly on a qualified payload-less variant (`En.Ra.who()`, `(En.Ra).who()`) is rejected by the resolver as an unresolved identifier even when En is visible (resolve_names_member_helper treats every member of an EnumVariant declaration as unresolved); the manual does not show that form, so the programs pass the variant to a function or bind it with `let` first".into(),
+            "enum family: an alias-qualified variant pattern (`q.En.Ra -> ..`) is not in the grammar (parse error), so aliases are exercised through expressions only".into(),
         ]
     }
 }
